@@ -107,10 +107,6 @@ theorem unflat3_ok (nx ny nz : Nat) (vals : List Rat) (h : vals.length = natProd
 
 /-! ## the mesh from bounds and dimensions -/
 
-/-- the region `Region(p1, p2)` builds from the bounds of a grid: default names and tolerance -/
-def plainRegion (pmin pmax : List Rat) : Region :=
-  { pmin := pmin, pmax := pmax, dims := ["x", "y", "z"], units := ["m", "m", "m"], tol := 1/1000000000000 }
-
 theorem mk?_plain (p1 p2 : List Rat) (h1 : p1.length = 3) (h2 : p2.length = 3)
     (hlt : ∀ a, a < 3 → p1.getD a 0 < p2.getD a 0) :
     Region.mk? p1 p2 none none = .ok (plainRegion p1 p2) := by
